@@ -34,6 +34,9 @@ PatternsO == UNION { { PAnd(<<PIns("m", <<ONot(g)>>)>>), PAnd(<<PIns("m", <<ONot
                        PAnd(<<PIns("m", <<Z, ONot(g)>>)>>), PAnd(<<PIns("m", <<ONot(g)>>), I("q")>>),
                        PAnd(<<PIns("m", <<ONot(g), ONot(g)>>)>>),
                        PAnd(<<PIns("m", <<WithTimes(ONot(g), 2, 2), Z>>)>>),
+                       \* a range of negated operands gives operands back to the operand that follows
+                       PAnd(<<PIns("m", <<WithTimes(ONot(g), 1, 2), Z>>)>>),
+                       PAnd(<<PIns("m", <<WithTimes(ONot(g), 0, 2), Y>>)>>),
                        PAnd(<<PIns("m", <<OOr(<<ONot(g), Z>>), Y>>)>>) } : g \in OArgs }
 OpSeqs == SeqsBetween({"x", "y", "z", "xy"}, 1, 3)
 ListingsO == { WithAddrs(<< <<"m", o>> >>) : o \in OpSeqs }
